@@ -357,22 +357,39 @@ def scenario_samename(sseed, kind):
     return tags
 
 
-def trace_of(sseed, kind):
-    """the issued (id, values) sequence of a scripted schedule: used for the two-run / two-process comparison"""
+def trace_of(sseed, kind, perturb=False):
+    """the issued (id, values) sequence of a scripted schedule: used for the two-run / two-process comparison.
+    `perturb`: the rest of the program uses the process-wide generators between the requests (training code that
+    shuffles, a sibling oracle created later) - nothing an oracle hands out may depend on them"""
     R = random.Random(sseed)
+    P = random.Random(sseed ^ 0x5eed)
+
+    def noise(*_a):
+        import numpy as np
+        for _ in range(P.randint(1, 3)):
+            random.random()
+            np.random.rand(P.randint(1, 4))
+        if P.random() < 0.3:
+            np.random.seed(P.randint(0, 99))
+        if P.random() < 0.3:
+            random.seed(P.randint(0, 99))
     with tempdir("ktt") as d:
         specs = gen.rand_specs(R, finite=(kind == "grid"), nonfixed=(kind == "bayes"))
         if kind == "bayes":
             # the acquisition step only matters on a continuous dimension with informative scores
             specs.append({"name": "lr", "kind": "float", "conds": [], "lo": 0.001, "hi": 1.0, "step": None, "sampling": R.choice(["linear", "log"]), "default": None})
+            specs.append({"name": "mom", "kind": "float", "conds": [], "lo": 0.0, "hi": 1.0, "step": None, "sampling": "linear", "default": None})
         over = dict(max_epochs=R.randint(1, 6), factor=2, iterations=1) if kind == "hyperband" else {}
         if kind == "bayes":
-            over = dict(max_trials=R.randint(5, 8), num_initial_points=2)
+            over = dict(max_trials=R.randint(8, 12), num_initial_points=2)
         o = gen.make_oracle(R, kind, specs, d, seed=R.choice([0, 5, R.randint(0, 999)]), **over)
         # tie-heavy scores: the winner among equal scores must not depend on hash ordering
         palette = R.choice([[1], [1, 1, 1, 2, 0.5], [1, 2]]) if kind != "bayes" else [round(R.random() * 10, 3) for _ in range(12)]
+        hooks = dict(on_create=noise, on_end=noise) if perturb else {}
+        if perturb:
+            noise()
         tr = run_schedule(o, R, steps=R.randint(8, 40) if kind != "hyperband" else R.randint(30, 90),
-                          score_of=lambda R_, t: float(R_.choice(palette)), outcomes=["C"] * 6 + ["INV", "FAIL"])
+                          score_of=lambda R_, t: float(R_.choice(palette)), outcomes=["C"] * 6 + ["INV", "FAIL"], **hooks)
     return [e for e in tr if e[0] == "create"]
 
 
@@ -405,8 +422,14 @@ def run(seed, tier, n=None, subprocs=None, modes=("random", "random", "hyperband
                 tags = scenario_samename(sseed, mode.split("-")[1])
                 lines, expect, doc = [], [], {"suite": "sampling", "mode": mode, "seed": sseed}
             else:
-                kind = kinds4[(i // 8) % 4]
+                kind = kinds4[(sseed >> 3) % 4]
                 a, b = trace_of(sseed, kind), trace_of(sseed, kind)
+                c = trace_of(sseed, kind, perturb=True)
+                if a == b and a != c:
+                    j = next((j for j, (x, y) in enumerate(zip(a, c)) if x != y), -1)
+                    raise Violation("C12", f"{kind}: the trials issued depend on the process-wide random generators (other code drew from / re-seeded "
+                                           f"`random` and `numpy.random` between the requests): request {j}: {a[j] if j >= 0 else len(a)} vs {c[j] if j >= 0 else len(c)}",
+                                    {"tag": "global-rng", "kind": kind})
                 if a != b:
                     j = next((j for j, (x, y) in enumerate(zip(a, b)) if x != y), -1)
                     raise Violation("C12", f"{kind}: two runs with the same seed and schedule diverge at request {j}: {a[j] if j >= 0 else len(a)} vs {b[j] if j >= 0 else len(b)}", {"tag": "two-runs", "kind": kind})
@@ -415,7 +438,7 @@ def run(seed, tier, n=None, subprocs=None, modes=("random", "random", "hyperband
                 res.evaluations += len(a)
         except Violation as v:
             for x in [v] + list(getattr(v, "also", [])):
-                res.violations.append({"pid": x.pid, "what": x.what, "sig": x.sig, "replay": {"suite": "sampling", "seed": sseed, "mode": mode, "i": i, "kind": kinds4[(i // 8) % 4]}})
+                res.violations.append({"pid": x.pid, "what": x.what, "sig": x.sig, "replay": {"suite": "sampling", "seed": sseed, "mode": mode, "i": i, "kind": kinds4[(sseed >> 3) % 4]}})
             continue
         res.hist.update(tags)
         res.hist["mode-" + mode] += 1
@@ -476,6 +499,8 @@ def replay(doc):
             res.evaluations += len(a)
             if a != b:
                 raise Violation("C12", f"{doc['kind']}: two runs with the same seed and schedule diverge", {"tag": "two-runs", "kind": doc["kind"]})
+            if a != trace_of(doc["seed"], doc["kind"], perturb=True):
+                raise Violation("C12", f"{doc['kind']}: the trials issued depend on the process-wide random generators", {"tag": "global-rng", "kind": doc["kind"]})
             return res
         elif mode == "subprocess":
             a = json.dumps(trace_of(doc["seed"], doc["kind"]), default=str)
